@@ -651,3 +651,88 @@ fn main() {{}}
 U_EXPORT = VUnit("c11_export", ["C11"], "export: the export table shares the module variable's cell", build_export)
 U_EXPORT.assumes = ["register_export (MScriptFile::add_export / update_once) and the frame lookup are abstract callees; gc cell semantics assumed"]
 UNITS.append(U_EXPORT)
+
+
+# =====================================================================================================================
+# C01 / C07: data-flow handlers -- ret, store, store_fast, load_fast
+FLOW_SPEC = r"""
+pub enum ReturnValue { FFIError(VString), NoValue, Value(Primitive) }
+// Ctx::register_variable -> Stack::register_variable_flags (obligation C07.stack.store in unit c07_stack): abstract here, recorded as a ghost log
+pub uninterp spec fn stores(f: &Frames) -> Seq<(Seq<char>, Primitive)>;
+impl Ctx {
+    #[verifier::external_body]
+    pub fn register_variable(&mut self, name: VString, var: Primitive) -> (r: Result<(), VErr>)
+        ensures final(self).stack@ == old(self).stack@, final(self).exit_state == old(self).exit_state,
+                r is Ok ==> stores(&final(self).frames) == stores(&old(self).frames).push((text_of(&name), var)),
+                r is Err ==> stores(&final(self).frames) == stores(&old(self).frames)
+    { unimplemented!() }
+}
+"""
+
+
+def build_flow(repo):
+    src = Source(repo)
+    log = []
+    names = ["pop", "push", "signal", "stack_size"]
+    ctx = ctx_impl(src, log, names)
+    extra = [Rule("R1", "Cow :: Owned ( name . to_owned ( ) )", "clone_vs ( name )", why="Cow<str> name"),
+             Rule("R3", ". with_context ( $$c ) ?", "?", why="context text dropped"),
+             Rule("R1", "var . primitive ( ) . clone ( )", "var . verif_value ( )", why="content of the variable's cell"),
+             Rule("R1", "name . clone ( )", "clone_vs ( name )", why="String clone")]
+    hs = {n: handler(src, log, n, extra) for n in ["ret", "store", "store_fast", "load_fast"]}
+    gen = header(log, f"{INSTR}: ret, store, store_fast, load_fast; {CTXF}: Ctx methods") + \
+        prelude("ctx.rs").replace("ReturnValue(Box<Primitive>)", "ReturnValue(ReturnValue)") + ctx + LOAD_SPEC + FLOW_SPEC + f"""
+//@ OBL C01.handler.ret
+// `ret`: the function ends with the single value on the operand stack, or with no value when the stack is empty
+pub fn ret(ctx: &mut Ctx, _args: &Vec<VString>) -> (r: Result<(), VErr>)
+    ensures (old(ctx).stack@.len() <= 1) <==> r is Ok,
+            r is Ok ==> final(ctx).stack@.len() == 0
+                && final(ctx).exit_state == Exit::ReturnValue(if old(ctx).stack@.len() == 1 {{ ReturnValue::Value(old(ctx).stack@[0]) }} else {{ ReturnValue::NoValue }}),
+            rest(final(ctx)) == rest(old(ctx)),
+{{
+{render(hs['ret'], 1)}
+}}
+
+//@ OBL C01.handler.store
+// `store NAME`: the VALUE of the single operand (copied out of any element / field pointer) is what the variable receives
+pub fn store(ctx: &mut Ctx, args: &Vec<VString>) -> (r: Result<(), VErr>)
+    ensures r is Ok ==> args@.len() >= 1 && old(ctx).stack@.len() == 1 && moved_out(old(ctx).stack@[0]) is Some && final(ctx).stack@.len() == 0
+                && stores(&final(ctx).frames) == stores(&old(ctx).frames).push((text_of(&args@[0]), moved_out(old(ctx).stack@[0])->Some_0)),
+            r is Err ==> stores(&final(ctx).frames) == stores(&old(ctx).frames),
+{{
+{render(hs['store'], 1)}
+}}
+
+//@ OBL C01.handler.store_fast
+// `store_fast R`: a compiler temporary is bound in the innermost frame to the operand's value
+pub fn store_fast(ctx: &mut Ctx, args: &Vec<VString>) -> (r: Result<(), VErr>)
+    ensures r is Ok ==> args@.len() >= 1 && old(ctx).stack@.len() == 1 && moved_out(old(ctx).stack@[0]) is Some && final(ctx).stack@.len() == 0
+                && locals_view(&final(ctx).locals) == locals_view(&old(ctx).locals).insert(text_of(&args@[0]), moved_out(old(ctx).stack@[0])->Some_0),
+{{
+{render(hs['store_fast'], 1)}
+}}
+
+//@ OBL C01.handler.load_fast
+// `load_fast R`: pushes the current content of the variable the executing function's own frames bind to R
+pub fn load_fast(ctx: &mut Ctx, args: &Vec<VString>) -> (r: Result<(), VErr>)
+    ensures (args@.len() >= 1 && fn_lookup(&old(ctx).frames, text_of(&args@[0])) is Some) <==> r is Ok,
+            r is Ok ==> final(ctx).stack@ == old(ctx).stack@.push(cell_value(cell_id(&fn_lookup(&old(ctx).frames, text_of(&args@[0]))->Some_0))),
+            rest(final(ctx)) == rest(old(ctx)),
+{{
+{render(hs['load_fast'], 1)}
+}}
+}} // verus!
+fn main() {{}}
+"""
+    obls = ctx_obls(names, ["C01"]) + [
+        Obl("C01.handler.ret", ["C01", "C09"], fn="ret", desc="ret: returns the single operand (or no value); more than one operand is an error"),
+        Obl("C01.handler.store", ["C01", "C07", "C08"], fn="store", desc="store: the operand's value (moved out of pointers) is registered under the name; stack emptied"),
+        Obl("C01.handler.store_fast", ["C01", "C15"], fn="store_fast", desc="store_fast: binds the register in the innermost frame to the operand's value"),
+        Obl("C01.handler.load_fast", ["C01", "C15"], fn="load_fast", desc="load_fast: pushes the content of the register as bound in the executing function's frames"),
+    ]
+    return gen, obls, log
+
+
+U_FLOW = VUnit("c01_dataflow", ["C01", "C07", "C08", "C09", "C15"], "data-flow handlers: ret, store, store_fast, load_fast", build_flow)
+U_FLOW.assumes = ["Stack::register_variable_flags / register_variable_local / find_name_in_function are abstract callees (unit c07_stack covers the stack side)", "heap pointers abstract (moved_out)"]
+UNITS.append(U_FLOW)
